@@ -446,6 +446,24 @@ fn created_something(events: &[String]) -> Option<String> {
     None
 }
 
+/// The calendar day the library calls "today" (`DateRange::default()`, i.e. chrono's local date)
+/// at the simulated instant of a step: same chrono code, same TZ database, evaluated in-process.
+pub fn library_today(clock: i64, tz: &str) -> Option<NaiveDate> {
+    // chrono caches the zone for a second after each look-up and would ignore a changed TZ, so the
+    // conversion runs in a fresh process of this harness (`c19 today <clock>`, TZ in its environment)
+    let exe = std::env::current_exe().ok()?;
+    let out = Command::new(exe).arg("today").arg(clock.to_string()).env("TZ", tz).stdin(Stdio::null()).stderr(Stdio::null()).output().ok()?;
+    String::from_utf8_lossy(&out.stdout).trim().parse().ok()
+}
+
+/// body of `c19 today <clock>`
+pub fn print_today(clock: i64) {
+    use chrono::TimeZone;
+    if let Some(d) = chrono::Local.timestamp_opt(clock, 0).single() {
+        println!("{}", d.date_naive());
+    }
+}
+
 fn sane_config(c: &ParamsConfig) -> Result<(), String> {
     let dr = match &c.date_range {
         Some(d) => d,
@@ -796,7 +814,8 @@ pub fn run_pass(ctx: &Ctx, sc: &Scenario, inject: bool) -> PassResult {
                 let range = match (flags.start, flags.end) {
                     (Some(s), Some(e)) => Some(DateRange::from(s..=e)),
                     (Some(s), None) => Some(DateRange::from(s..=s)),
-                    _ => pa.and_then(|p| p.date_range.clone()),
+                    // dates omitted: the day the library itself calls today at this simulated instant
+                    _ => library_today(step.env.clock, &step.env.tz).map(|d| DateRange::from(d..=d)).or_else(|| pa.and_then(|p| p.date_range.clone())),
                 };
                 match (params, elev, range) {
                     (Some(params), Some(elev), Some(range)) => Some(ParamsConfig {
@@ -998,7 +1017,8 @@ pub fn run_pass(ctx: &Ctx, sc: &Scenario, inject: bool) -> PassResult {
                             let missing = exp.keys().filter(|d| !got.contains_key(d)).count();
                             let extra = got.keys().filter(|d| !exp.contains_key(d)).count();
                             let diff = exp.iter().filter(|(d, v)| got.get(d).map(|g| g != *v).unwrap_or(false)).map(|(d, _)| d.to_string()).next();
-                            viol!("O1-output", format!("output file differs from the library's result: {} dates expected, {} found; {missing} missing, {extra} extra, first differing date {diff:?}{o5}", exp.len(), got.len()));
+                            let dflt = if step.kind == "A" && flags.start.is_none() { format!(" (dates were defaulted: the library's 'today' at the simulated clock in {} is {}; the output is keyed {:?})", step.env.tz, exp.keys().next().map(|d| d.to_string()).unwrap_or_default(), got.keys().next().map(|d| d.to_string())) } else { String::new() };
+                            viol!("O1-output", format!("output file differs from the library's result: {} dates expected, {} found; {missing} missing, {extra} extra, first differing date {diff:?}{dflt}{o5}", exp.len(), got.len()));
                         }
                     }
                 }
